@@ -959,6 +959,7 @@ Proof.
   unfold replace_rp in H. destruct (rp_depth rf <? sl_open_start sl) eqn:E1; [discriminate|].
   apply Nat.ltb_ge in E1.
   destruct (negb _) eqn:E2; [discriminate|]. apply negb_false_iff in E2. apply Z.eqb_eq in E2.
+  destruct (rp_pos rt <? rp_pos rf); [discriminate|]. destruct (_ && _); [discriminate|].
   destruct (resolve_spec s _ _ _ Ef) as (_ & Hlf & Htf & (i1 & o1 & r1 & Hh1) & Hnf).
   destruct (resolve_spec s _ _ _ Et) as (_ & Hlt & Htt & (i2 & o2 & r2 & Hh2) & Hnt).
   destruct (resolve_tokens _ _ _ Ef) as (_ & Hbf & _). destruct (resolve_tokens _ _ _ Et) as (_ & _ & Hat).
